@@ -17,7 +17,11 @@ def run_family(ck, prop, sub=None):
     rows = syn.QUICK_ROWS if tier == "quick" else syn.all_rows()
     if sub is None:
         sub = (prop == "C01")
-    res = syn.run_synprint(ck, vecs, rows, layouts, sub=sub)
+    if sub and tier == "quick":
+        # printing every sub-node on its own is the expensive part: quick does it for two layouts
+        res = syn.run_synprint(ck, vecs, rows, layouts[:2], sub=True) + syn.run_synprint(ck, vecs, rows, layouts[2:], sub=False)
+    else:
+        res = syn.run_synprint(ck, vecs, rows, layouts, sub=sub)
     inst = collections.defaultdict(lambda: {"langs": set(), "rec": None})
     conf = collections.Counter()
     nontrivial = set()
@@ -50,16 +54,21 @@ def run_family(ck, prop, sub=None):
         for f in (r["fails"] or []):
             if syn.FAIL_PROP.get(f["kind"]) != prop:
                 continue
-            k = (f["kind"], tuple(f["minrow"]), src)
-            inst[k]["langs"].add(f["lang"])
-            if inst[k]["rec"] is None:
-                inst[k]["rec"] = {"vector": {"src": src, "ch": v["ch"], "layout": L["name"], "lang": f["lang"], "row": f["row"],
-                                             "t": v["t"], "n": v["n"], "m": v["m"]},
-                                  "impl": {"kind": f["kind"], "detail": f.get("detail", "")[:1500], "out": f.get("out", "")}}
+            # key = kind | minimal option set | signature of where it failed (harness/cmd/syn/sig.go)
+            k = "%s|%s|%s" % (f["kind"], syn.rowname(f["minrow"]), f.get("sig", ""))
+            d = inst[k]
+            d["langs"].add(f["lang"]); d["n"] = d.get("n", 0) + 1
+            if d["rec"] is None or len(src) < len(d["rec"]["vector"]["src"]):
+                d["rec"] = {"vector": {"src": src, "ch": v["ch"], "layout": L["name"], "lang": f["lang"], "row": f["row"],
+                                       "t": v["t"], "n": v["n"], "m": v["m"]},
+                            "impl": {"kind": f["kind"], "sig": f.get("sig"), "detail": f.get("detail", "")[:1500], "out": f.get("out", "")}}
         if len(ck.cov["samples"]) < 4 and any(c for c in v["ch"]) and not r["fails"]:
             ck.sample({"ch": v["ch"], "layout": L["name"], "src": src, "valid_in": v["v"], "rejected_in": v["x"]})
-    for (kind, minrow, src), d in inst.items():
-        ck.violation(instance_key(kind, list(minrow), src, d["langs"]), d["rec"])
+    for k, d in inst.items():
+        d["rec"]["instances"] = d["n"]
+        d["rec"]["variants"] = sorted(d["langs"])
+        for _ in range(d["n"]):
+            ck.violation(k, d["rec"])
     ck.cov["distinct_nontrivial"] = len(nontrivial)
     ck.cov["exhaustive"] = True
     ck.cov["rule"] = ("every derivation of ShSyntax with its non-default choices within the first MaxLen choice points "
@@ -79,8 +88,9 @@ def replay_family(ck, prop, rec):
            "rows": [v.get("row", [0, 0])], "sub": prop == "C01"}
     r = vlib.run_harness(h, "synprint", [job])[0]
     want_kind = rec["key"].split("|", 1)[0]
+    want_sig = rec["key"].split("|", 2)[2] if rec["key"].count("|") >= 2 else None
     for f in (r.get("fails") or []):
-        if f["kind"] == want_kind:
+        if f["kind"] == want_kind and (prop == "C11" or f.get("sig") == want_sig):
             ck.violation(rec["key"], {"vector": v, "impl": f})
             return
     if prop == "C11":
